@@ -544,4 +544,13 @@ theorem next_plain (cfg : DCfg) (ls : LState) (k : KeyE) (rest : Bytes)
   simp only [nextLoop, hn, if_false, n1, n2, n3, n4, n5, n6, n7, n8, n9, n10, n11, hrb]
   rfl
 
+/-- the expansion of one hash-table chunk -/
+theorem execCmd_hash_chunk (x : XCfg) (p : PObj) (hr : p.rtype = 4) :
+    execCmd x p = (hashPairs p).map (fun ps => ps.map (fun q => cmdB b!"HSET" [p.key, q.1, q.2])) := by
+  unfold execCmd
+  rw [hr]
+  have : otypeOf 4 = some .hash := by decide
+  simp [this]
+
+
 end GunYu.Rdb
